@@ -144,8 +144,9 @@ def scanQuoted (q : Char) : St → List Char → Sub
           (((scanQuoted q (s.adv c) (d :: ds)).cons c).setBackslash).addDiag
             ⟨.malformedLiteral, s.pos, ⟨s.pos.line, s.pos.col + 2⟩⟩
       | [] =>
+        -- the backslash is the last character of the source: the range ends behind it (inside the file)
         ((({ st := s.adv c, consumed := [], rest := [] } : Sub).cons c).setBackslash).addDiag
-          ⟨.malformedLiteral, s.pos, ⟨s.pos.line, s.pos.col + 2⟩⟩
+          ⟨.malformedLiteral, s.pos, ⟨s.pos.line, s.pos.col + 1⟩⟩
     else (scanQuoted q (s.adv c) cs).cons c
 termination_by _ cs => cs.length
 
